@@ -7,7 +7,7 @@ import os
 import sys
 import threading
 
-from common import (Build, MachineryError, Verdict, make_cfg, run_children,
+from common import (one_case, Build, MachineryError, Verdict, make_cfg, run_children,
                     run_tlc, shard, NCPU, VERIF)
 
 SWITCHES = ('PinnedC18', 'PinnedC18Self', 'PinnedC18Abc')
@@ -218,7 +218,8 @@ def main(pid, tier):
                         json.dumps({k: x for k, x in m['ctx'].items()
                                     if k != 'source' or mode == 'c18'},
                                    sort_keys=True))
-                    v.violation(sig, m)
+                    v.violation(sig, m, one_case(
+                        'replay_signatures.py', impl, job, m))
             v.cov['traces_validated_against_impl'] += 2 * len(cases)
             c = cases[len(cases) // 2]
             if mode == 'c18':
